@@ -35,6 +35,13 @@ Reason(e, s) ==
          ELSE IF r.out # want THEN "reference_receiver_gets_other_units"
          ELSE IF e.rx_res # "ok" THEN "own_receiver_refuses"
          ELSE IF e.rx_out # want THEN "own_receiver_gets_other_units"
+         \* a consumer that cuts the packet stream into frames with IsPartitionHead / IsPartitionTail: the frame's first packet is a head,
+         \* its last packet - and no other - is a tail; in between a packet is a head iff it begins a unit (H264: no FU-A continuation;
+         \* AV1: Z = 0, its first element does not continue an OBU)
+         ELSE IF Len(e.heads) # n \/ Len(e.tails) # n THEN "harness_heads_tails"
+         ELSE IF ~e.heads[1] THEN "first_packet_of_frame_is_not_a_partition_head"
+         ELSE IF \E i \in 1..n : e.tails[i] # (i = n) THEN "partition_tail_is_not_exactly_the_last_packet"
+         ELSE IF \E i \in 1..n : e.heads[i] # (IF e.codec = "h264" THEN ~(ps[i][1] % 32 \in {28, 29} /\ ps[i][2] < 128) ELSE ps[i][1] < 128) THEN "partition_head_flag"
          ELSE ""
 Init == l = 1 /\ st = [poisoned |-> TRUE, nextSeq |-> 0, ts |-> <<0, 0, 0, 0>>, started |-> FALSE]
 Next ==
